@@ -23,7 +23,7 @@ CHECKS = {
         level="exploration",
         technique="TLA+ affine group law over BigNat (ECurve.tla, self-checked: G on curve, [n]G=O) as oracle; ECWalk state machine with the discrete log tracked by the specification (forces doubling / cancellation / infinity); ECTab table cases; limb-boundary field elements and the comb table through verif accessors (table conformance)",
         text="Every catalogue scalar (0, tiny, n-20..n+16, 2n, 2n+1, 2^k, all-ones strings of 1..40 bytes, leading zeros, empty, 40 bytes, pseudo-random) goes through ScalarBaseMult and ScalarMult on four points; all two-call walks over Add (catalogue point, the same point, the opposite point, infinity) / Double / ScalarMult / ScalarBaseMult / IsOnCurve probes plus simulated longer walks; GenerateKey for eight reader contents incl. a reader that runs dry; the published parameters; 300 (3000) limb-boundary field elements through mul/square/add/sub; all 30 comb-table entries against [2^(64j+32t)]G.",
-        note="Arithmetic correctness is decided on the enumerated elements only (numeric accuracy is where this technique is weakest). Known finding field-square-carry is listed by failing input in known_findings.json.",
+        note="Arithmetic correctness is decided on the enumerated elements only (numeric accuracy is where this technique is weakest). The former known finding field-square-carry (wrong products for limb-boundary elements) was diagnosed and repaired in round 4; its revert is a seeded change.",
         ref="DESIGN.md section 5 C03"),
     "C04": dict(
         level="model_checking",
